@@ -2461,6 +2461,8 @@ class TLSConnection(TLSRecordLayer):
                     break
             if result == "finished":
                 self._handshakeDone(resumed=False)
+            elif result == "resumed_and_finished":
+                self._handshakeDone(resumed=True)
             return
 
         #If not a resumption...
@@ -2982,6 +2984,9 @@ class TLSConnection(TLSRecordLayer):
 
         psk = None
         selected_psk = None
+        # True when the selected PSK is a session ticket (a resumption),
+        # False for externally provisioned PSKs
+        resumed_from_ticket = False
         resumed_client_cert_chain = None
         psks = clientHello.getExtension(ExtensionType.pre_shared_key)
         psk_types = clientHello.getExtension(
@@ -3019,6 +3024,7 @@ class TLSConnection(TLSRecordLayer):
                 psk = match[0][1]
                 selected_psk = i
                 if ticket:
+                    resumed_from_ticket = True
                     resumed_client_cert_chain = ticket.client_cert_chain
                 try:
                     HandshakeHelpers.verify_binder(
@@ -3497,7 +3503,7 @@ class TLSConnection(TLSRecordLayer):
         for result in self._serverSendTickets(settings):
             yield result
 
-        yield "finished"
+        yield "resumed_and_finished" if resumed_from_ticket else "finished"
 
     def _ticket_to_session(self, settings, ticket_ext):
         if not ticket_ext.ticket:
